@@ -14,9 +14,10 @@ import common
 import gens
 import lit
 
-# repaired in /repo and therefore no longer excused: 1 descriptor_order_not_first (1a5deb0), 4/7 coarse/base
+# repaired in /repo and therefore no longer excused: 1 descriptor_order_not_first (1a5deb0), 2 descriptor_order_zero
+# (0d0f450, reader side), 4/7 coarse/base
 # branch_edge_order (be4ff6e), 5/8 coarse/base ring_edge_order (dd9a0c2); their witnesses stay in the corpus
-CLASSES = {2: 'descriptor_order_zero', 3: 'coarse_node_renamed', 6: 'coarse_pct_marker', 9: 'base_pct_marker',
+CLASSES = {3: 'coarse_node_renamed', 6: 'coarse_pct_marker', 9: 'base_pct_marker',
            10: 'ambiguous_descriptor_choice'}
 CLAUSES = {1: 'the writer raised an exception',
            2: 'the reader rejected what the writer produced',
